@@ -14,6 +14,11 @@ resized / emptied again, so that series state is reached through histories too.
   json   : to_json/from_json round trip, the parsed document vs the model's, text (in)equality after a
            single-cell / series-sample / depth / name / row-order perturbation of a copy, relatedness probes;
   pandas : DataFrame / Series content row by row; a series cell must come back as its row of numbers.
+           a quarter of the tables carry a non-default CONFIGURATION (inp['cfg']: default_col_type = IntColumn /
+           FloatColumn set on the final table, sorted = False) and get follow-up operations whose result DEPENDS on it:
+           a new column created by value (list / tuple / scalar; dm[name] = ... ), through a Row write
+           (dm[i].new = v), `dm << {name: [...]}`, growth by the length setter (default cells of every column type,
+           of series with defaultnan True / False);
   reser  : ONE object serialised again and again (to_json, pickle.dumps / io.writepickle, to_pandas) with one in-place
            edit between two serialisations and NOTHING else in between (no table is constructed, no other call of the
            library; everything is read back only after the last serialisation): cell writes by index / slice / list /
@@ -209,7 +214,78 @@ class _View:
         self.pool = [r.pool[a] for a, _b in pairs]
 
 
-def gen_follow(rng, r, pairs, first):
+CFG_VALS = [1, 2, -3, '2', '7', 2.0, 2.5, 'x', '', None, float('nan'), 10**3]
+
+
+def gen_cfg_follow(rng, r, pairs, k):
+    """a follow-up whose result depends on the configuration of the table (default column type, sorted flag, the
+    default cell of each column): a NEW column created by value, by a Row write, `<<` with a dict, growth"""
+    dm = r.pool[pairs[0][0]]
+    n = len(dm)
+    name = 'nw%d' % k
+    c = rng.random()
+    vals = CFG_VALS[:3] * 3 + CFG_VALS
+
+    def v():
+        return pyobs.enc(rng.choice(vals))
+    if c < 0.4:
+        if rng.random() < 0.3:
+            return {'op': 'setcol', 't': 0, 'name': name, 'rhs': {'k': 'scalar', 'v': v()}}
+        return {'op': 'setcol', 't': 0, 'name': name, 'rhs': {'k': 'seq', 'vs': [v() for _ in range(n)]}}
+    if c < 0.6 and n:
+        return {'op': 'setcell', 't': 0, 'name': name, 'addr': {'k': 'row', 'i': rng.randrange(n)},
+                'rhs': {'k': 'scalar', 'v': v()}}
+    if c < 0.75:
+        d = {name: [v() for _ in range(rng.choice([1, 2]))]}
+        cols = [nm for nm, kd in histgen.col_kinds(dm) if kd]
+        if cols and rng.random() < 0.6:
+            d[rng.choice(cols)] = [v()]
+        return {'op': 'y', 'how': 'lshiftdict', 't': 0, 'd': d}
+    if c < 0.85:
+        return {'op': 'y', 'how': 'newrowcol', 't': 0, 'i': rng.randrange(n) if n else 0, 'name': name, 'v': v()}
+    return {'op': 'setlength', 't': 0, 'n': n + rng.choice([1, 2])}
+
+
+def apply_any(r, o, seed=0):
+    """world.Runner.apply, plus the follow-ups the shared alphabet lacks ({'op': 'y', ...})"""
+    if o['op'] != 'y':
+        return r.apply(o, seed=seed)
+    dm = r.pool[o['t']]
+    res = None
+    with warnings.catch_warnings():
+        warnings.simplefilter('ignore')
+        try:
+            if o['how'] == 'lshiftdict':
+                res = dm << {k: [pyobs.dec(x) for x in vs] for k, vs in o['d'].items()}
+            elif o['how'] == 'newrowcol':
+                dm[o['i']][o['name']] = pyobs.dec(o['v'])         # Row.__setitem__ with a name the table lacks
+            else:
+                raise AssertionError(o)
+        except AssertionError:
+            raise
+        except Exception as e:          # noqa: BLE001
+            return '(Err %s)' % pyobs.exn_name(e), False
+    if res is not None:
+        if not isinstance(res, world.DataMatrix):
+            return '(Err OtherError)', False
+        r.pool.append(res)
+        return 'OkNew', True
+    return 'OkUnit', False
+
+
+def apply_cfg(dm, cfg):
+    """the configuration of the table that is serialised (set last: selections / copies start with the defaults)"""
+    if not cfg:
+        return
+    if cfg.get('dflt'):
+        dm.default_col_type = world.coltype(cfg['dflt'])
+    if cfg.get('unsorted'):
+        dm.sorted = False
+
+
+def gen_follow(rng, r, pairs, first, cfg=None):
+    if cfg and rng.random() < 0.5:
+        return gen_cfg_follow(rng, r, pairs, rng.randrange(100))
     if first and rng.random() < 0.5:
         n = len(r.pool[pairs[0][0]])
         return {'op': 'setlength', 't': 0, 'n': n + rng.choice([1, 2, 3])}
@@ -616,7 +692,15 @@ class C17:
             'family, families pairwise distinct); on the Python side the results must share no column object, row-id '
             'object, column dict or cell storage, each must own its columns after every later read, and the dump of one '
             'result must not change when another result is read or edited. '
-            'Distinct by (history, seed, table, series, post-operations, mode, twins, '
+            '(configuration) 30 % of the pickle and twice cases, 20 % of the reser and 10 % of the json cases set a '
+            'configuration on the table that is serialised, after its history: default_col_type = IntColumn / FloatColumn '
+            '(80 %) and / or sorted = False (35 %); in these cases half of the follow-up operations are ones whose result '
+            'DEPENDS on the configuration: a new column created by value (list / scalar of ints, numeric text, floats, text, '
+            'None, NaN: type-checked by the default column type), by a Row write to a name the table lacks (attribute and '
+            'item form), `dm << {new: [...], existing: [...]}`, growth by the length setter (default cells of every column, '
+            'incl. series with defaultnan False); the restored table must carry the same configuration (x_dflt / x_sorted of '
+            'the dump are compared in Coq) and every follow-up must give the same outcome and the same table on both sides. '
+            'Distinct by (history, seed, table, series, post-operations, configuration, mode, twins, '
             'follow-ups / selections, edits).')
     trusted_base = [
         'Coq 8.16.1 kernel (coqc; vm_compute for evaluating cases; no native_compute)',
@@ -673,6 +757,7 @@ class C17:
             r.pool.append(foreign(r.pool[cur]))
             cur = len(r.pool) - 1
         dm = r.pool[cur]
+        apply_cfg(dm, inp.get('cfg'))
         warm(dm, inp.get('warm', 0))
         for q in r.pool:
             r.fam(q)
@@ -828,7 +913,7 @@ class C17:
         ok_ops = 0
         while (gen and k < nf) or (not gen and k < len(follow)):
             if gen:
-                o = gen_follow(frng, r, pairs, k == 0)
+                o = gen_follow(frng, r, pairs, k == 0, inp.get('cfg'))
                 follow.append(o)
             else:
                 o = follow[k]
@@ -839,9 +924,9 @@ class C17:
             oa, ob = subst(o, pairs, 0), subst(o, pairs, 1)
             sd = inp['seed'] * 31 + k
             n0 = len(r.pool)
-            out_a, new_a = r.apply(oa, seed=sd)
+            out_a, new_a = apply_any(r, oa, seed=sd)
             ia = len(r.pool) - 1
-            out_b, new_b = r.apply(ob, seed=sd)
+            out_b, new_b = apply_any(r, ob, seed=sd)
             ib = len(r.pool) - 1
             outcomes.append([out_a, out_b])
             if out_a != out_b:
@@ -881,7 +966,7 @@ class C17:
             'nontrivial': len(dm) > 0 and len(dm._cols) > 0 and ok_ops > 0,
             'sig': json.dumps(inp2, sort_keys=True, default=str),
             'tags': ['pickle', 'mode-' + mode, 'warm%d' % inp.get('warm', 0), 'deco' if inp.get('deco') else 'plain',
-                     'rows%d' % min(len(dm), 9)] + self._tags(dm, inp) + ['follow-' + o['op'] for o in follow]
+                     'rows%d' % min(len(dm), 9)] + self._tags(dm, inp) + ['follow-' + (o['op'] if o['op'] != 'y' else o['how']) for o in follow]
                     + ['before-' + kd for kd in inp.get('before') or []] + ['after-' + kd for kd in inp.get('after') or []]
                     + (['orig-malformed'] if orig_problems else []),
         }
@@ -973,7 +1058,7 @@ class C17:
                         if o['op'] == 'new':
                             o = {'op': 'setlength', 't': 0, 'n': len(r.pool[pairs[0][0]]) + 1}
                     else:
-                        o = gen_follow(frng, r, pairs, k == 0)
+                        o = gen_follow(frng, r, pairs, k == 0, inp.get('cfg'))
                     ops_l.append(o)
                 o = ops_l[k]
                 k += 1
@@ -981,10 +1066,10 @@ class C17:
                     continue
                 sd = inp['seed'] * 31 + k + seedoff
                 n0 = len(r.pool)
-                out_a, new_a = r.apply(subst(o, pairs, 0), seed=sd)
+                out_a, new_a = apply_any(r, subst(o, pairs, 0), seed=sd)
                 ia = len(r.pool) - 1
                 if paired:
-                    out_b, new_b = r.apply(subst(o, pairs, 1), seed=sd)
+                    out_b, new_b = apply_any(r, subst(o, pairs, 1), seed=sd)
                     ib = len(r.pool) - 1
                     if out_a != out_b:
                         fail('%s, %s: the original gives %s, the table that was read gives %s' % (label, o['op'], out_a, out_b))
@@ -1131,7 +1216,9 @@ class C17:
         for col in dm._cols.values():
             if is_series(col):
                 kinds.append('series-depth%d' % col.depth)
-        return kinds + ['post-' + o['op'] for o in inp.get('post') or []] + (['foreign-pickle'] if inp.get('foreign') else [])
+        cfg = inp.get('cfg') or {}
+        return kinds + ['post-' + o['op'] for o in inp.get('post') or []] + (['foreign-pickle'] if inp.get('foreign') else []) \
+            + (['cfg-dflt-' + cfg['dflt']] if cfg.get('dflt') else []) + (['cfg-unsorted'] if cfg.get('unsorted') else [])
 
     def _fail_case(self, inp, why, tags):
         return {'input': inp, 'observed': why, 'pyfail': why, 'oracle': 'true', 'model': 'true', 'nontrivial': True,
@@ -1630,6 +1717,12 @@ if __name__ == '__main__':
             def ser(big_ok=True):
                 sers, npost = self.gen_series(sub, big_ok)
                 return {'series': sers, 'npost': npost, 'pseed': sub.randrange(1 << 30)} if sers else {}
+            def cfg(p):
+                """a non-default configuration of the table that is serialised (probability p)"""
+                if sub.random() >= p:
+                    return {}
+                return {'cfg': {'dflt': sub.choice(['KInt', 'KFloat', 'KInt', 'KFloat', None]),
+                                'unsorted': sub.random() < 0.35}}
             order = list(range(npool))
             sub.shuffle(order)
             for t in order[:4]:
@@ -1640,7 +1733,7 @@ if __name__ == '__main__':
                 cases.append(self.rerun(dict(base, kind='pickle', t=t, mode=mode, warm=sub.randint(0, 2), deco=deco(),
                                              fseed=sub.randrange(1 << 30), nfollow=sub.randint(1, 4),
                                              before=before, after=after, foreign=sub.random() < 0.15,
-                                             **ser(big_ok=sub.random() < 0.3))))
+                                             **cfg(0.3), **ser(big_ok=sub.random() < 0.3))))
             if h % 12 == 0 and npool:
                 cases.append(self.rerun(dict(base, kind='fresh', t=order[0], protocol=sub.choice([0, 2, 4]))))
             # the same file / bytes / JSON text read twice, the first result modified before and after the second read
@@ -1651,13 +1744,13 @@ if __name__ == '__main__':
                                              fseed=sub.randrange(1 << 30), nbefore=sub.choice([0, 1, 2, 2, 3]),
                                              nsecond=sub.choice([0, 1, 2]), nafter=sub.choice([0, 1, 2]),
                                              third=sub.random() < 0.35, foreign=sub.random() < 0.1,
-                                             **ser(big_ok=sub.random() < 0.2))))
+                                             **cfg(0.3), **ser(big_ok=sub.random() < 0.2))))
             for t in order[:2]:
                 extra = ser()
                 # the perturbation is chosen on the table as it is before the post-operations; a stale row index
                 # only means that the copy stays unperturbed
                 cases.append(self.rerun(dict(base, kind='json', t=t, warm=sub.randint(0, 2), deco=deco(),
-                                             foreign=sub.random() < 0.35,
+                                             foreign=sub.random() < 0.35, **cfg(0.1),
                                              perturb=self.gen_perturb(sub, r.pool[t], extra.get('series')), **extra)))
             # the same object serialised, edited in place, serialised again (nothing else in between)
             for t in ([order[0], order[-1]] if h % 2 == 0 else [order[h % len(order)]]):
@@ -1665,7 +1758,8 @@ if __name__ == '__main__':
                                              foreign=sub.random() < 0.15, what=sub.choice(RESER_WHAT),
                                              mode=MODES[mi % len(MODES)], jfirst=sub.random() < 0.7,
                                              eseed=sub.randrange(1 << 30), nsels=sub.choice([0, 1, 1, 2]),
-                                             nedits=sub.choice([1, 1, 2, 2, 3]), **ser(big_ok=sub.random() < 0.2))))
+                                             nedits=sub.choice([1, 1, 2, 2, 3]), **cfg(0.2),
+                                             **ser(big_ok=sub.random() < 0.2))))
                 mi += 1
             t = order[-1]
             cases.append(self.rerun(dict(base, kind='pandas', t=t, deco=deco(), foreign=sub.random() < 0.2, **ser())))
